@@ -353,6 +353,8 @@ def coq_compare(tag, cases):
             f.write("Eval vm_compute in failing chk %d cases.\n" % lo)
             f.write("Definition chk_spec (c : c19case * implobs) : bool := spec_c19 (fst c) (snd c).\n")
             f.write("Eval vm_compute in failing chk_spec %d cases.\n" % lo)
+            f.write("Definition chk_dom (c : c19case * implobs) : bool := sp_applicable (fst c) && wf_declb (c_decl (fst c)).\n")
+            f.write("Eval vm_compute in failing chk_dom %d cases.\n" % lo)
         files.append(path)
     procs = [subprocess.Popen(["timeout", "900", "coqc", "-noglob", "-Q", COQ, "PV", p], stdout=subprocess.PIPE, stderr=subprocess.STDOUT, text=True)
              for p in files]
@@ -362,8 +364,11 @@ def coq_compare(tag, cases):
         if p.returncode != 0:
             errors.append((path, out[-3000:])); continue
         ls = parse_nlist(out)
-        if len(ls) > 0: a += ls[0]
-        if len(ls) > 1: b += ls[1]
+        if len(ls) != 3:
+            errors.append((path, "unexpected coqc output: " + out[-1500:])); continue
+        a += ls[0]; b += ls[1]
+        if ls[2]:
+            errors.append((path, "rounds outside the domain of the executable spec / not well formed (generator defect): %s" % ls[2][:10]))
     return sorted(a), sorted(b), errors
 
 
@@ -469,10 +474,7 @@ class C19:
         pid = self.pid
         print("[%s] tier=%s seed=%d repo=%s" % (pid, tier, seed, REPO))
         # 1. proofs
-        if os.environ.get("C19_DEV_SKIP_PROOFS"):
-            proof = dict(ok=True, make_ok=True, obligations=0, discharged=0, theorems=[], axioms=[], bad_axioms=[], forbidden=[], log="", failed_at=None)
-        else:
-            proof = check_props(pid, ["Spec/SpecC19.vo"])
+        proof = check_props(pid, ["Spec/SpecC19.vo"])
         print("[%s] proofs: make_ok=%s theorems=%d axioms=%s bad=%s forbidden=%d" % (
             pid, proof["make_ok"], proof["obligations"], proof["axioms"], proof["bad_axioms"], len(proof["forbidden"])))
         if not proof["make_ok"]:
